@@ -1,7 +1,7 @@
 (* Props/C17.v — Index arithmetic, mode-selection preprocessing (theorems about the code as
    regenerated from /repo/pyttb/pyttb_utils.py at run time).  Only statements, `exact`, Print Assumptions. *)
 From Coq Require Import List ZArith Arith Bool Permutation Sorted.
-From PV Require Import Base.Index Np.NpZ Proofs.NpZProofs Gen.GenUtils Proofs.UtilsProofs Proofs.RowsProofs.
+From PV Require Import Base.Index Np.NpZ Proofs.NpZProofs Gen.GenUtils Proofs.UtilsProofs Proofs.RowsProofs Proofs.KhatriRao Model.Repr.
 Import ListNotations.
 
 (* mutually inverse bijections between subscripts of a shape and 0..size-1 *)
@@ -117,6 +117,29 @@ Print Assumptions C17_ismember.
 
 Example C17_ismember_example :
   tt_ismember_rows [[4; 6]; [1; 9]; [2; 6]] [[2; 6]; [2; 1]; [4; 6]; [2; 6]] = Ok ([true; false; true], [2; -1; 3]).
+Proof. reflexivity. Qed.
+
+(* Khatri-Rao product = column-wise Kronecker product, first argument slowest (any commutative ring) *)
+Theorem C17_khatrirao : forall (V : Type) (v0 v1 : V) (vadd vmul vsub : V -> V -> V) (vopp : V -> V),
+  ring_theory v0 v1 vadd vmul vsub vopp (@eq V) ->
+  forall (A : list (list V)) rest p R ns is b r,
+  wfm V A p R -> length ns = length rest -> length is = length rest ->
+  (forall k, (k < length rest)%nat -> wfm V (nth k rest []) (nth k ns 0%nat) R /\ (nth k is 0 < nth k ns 0)%nat) ->
+  (b < p)%nat -> (r < R)%nat ->
+  exists K, khatrirao V vmul false (A :: rest) = Some K /\
+    wfm V K (size (p :: ns)) R /\
+    mget v0 K (sub2ind (rev (p :: ns)) (rev (b :: is))) r = vmul (kr_prod V v0 v1 vmul rest is r) (mget v0 A b r).
+Proof. exact khatrirao_spec. Qed.
+Print Assumptions C17_khatrirao.
+
+Theorem C17_khatrirao_reverse : forall (V : Type) (vmul : V -> V -> V) As,
+  khatrirao V vmul true As = khatrirao V vmul false (rev As).
+Proof. exact khatrirao_reverse. Qed.
+Print Assumptions C17_khatrirao_reverse.
+
+Example C17_khatrirao_example :
+  khatrirao Z Z.mul false [[[1; 2]; [3; 4]]; [[5; 6]; [7; 8]; [9; 10]]]
+  = Some [[5; 12]; [7; 16]; [9; 20]; [15; 24]; [21; 32]; [27; 40]].
 Proof. reflexivity. Qed.
 
 (* non-vacuity: a concrete request meets the hypotheses *)
